@@ -39,7 +39,7 @@ Definition is_none (r : rpc) : bool := match r with RNone => true | _ => false e
 
 Inductive ist := IRunning | ISuccess | IFailed.
 Inductive phase := PIdle | PArm | PInit | PDown.
-Inductive verdict := VRunning | VSuccess | VFailed.
+Inductive tverdict := VRunning | VSuccess | VFailed.
 
 Record eng := { store : Z -> est;        (* persisted task status *)
                 know : Z -> est;         (* the parser's tree (meaningful while [tree]) *)
@@ -101,7 +101,7 @@ Fixpoint remove1 (p : Z * est) (l : list (Z * est)) : option (list (Z * est)) :=
               else match remove1 p r with Some r' => Some (x :: r') | None => None end
   end.
 
-Definition ist_of (v : verdict) : ist := match v with VRunning => IRunning | VSuccess => ISuccess | VFailed => IFailed end.
+Definition ist_of (v : tverdict) : ist := match v with VRunning => IRunning | VSuccess => ISuccess | VFailed => IFailed end.
 
 Section G.
   Variable tasks : list Z.
@@ -115,7 +115,7 @@ Section G.
 
   (** TaskNode.ComputeStatus over the nodes the walk reaches (all parents done): running when one of them is
       neither finished nor failed, else failed when one is failed, else success *)
-  Definition verdict_of (f : Z -> est) : verdict :=
+  Definition verdict_of (f : Z -> est) : tverdict :=
     if existsb (fun t => parents_done f t && active (f t)) tasks then VRunning
     else if existsb (fun t => parents_done f t && est_eqb (f t) SFailed) tasks then VFailed
     else VSuccess.
